@@ -300,6 +300,26 @@ func genTsRun(g *fact.Gen) {
 		i := strings.Index(s, "ifts.failed{ts.t.FailNow()}")
 		return i >= 0 && i < j, true, ""
 	})
+	shape("skipChecksBackground", "cmdSkip: background commands are waited for with `ts.cmdWait(false, nil)` (exit statuses checked against their lines) before any `ts.t.Skip`; `ts.waitBackground(false)` there would ignore them.", true, func() (bool, bool, string) {
+		if skip == nil {
+			return false, false, "func cmdSkip not found"
+		}
+		s := body(skip)
+		j := strings.Index(s, "ts.t.Skip(")
+		if j < 0 {
+			return false, false, "no ts.t.Skip call in cmdSkip"
+		}
+		if i := strings.Index(s, "ts.cmdWait(false,nil)"); i >= 0 && i < j {
+			return true, true, ""
+		}
+		if i := strings.Index(s, "ts.waitBackground(true)"); i >= 0 && i < j {
+			return true, true, ""
+		}
+		if i := strings.Index(s, "ts.waitBackground(false)"); i >= 0 && i < j {
+			return false, true, ""
+		}
+		return false, false, "cmdSkip waits for background commands in an unrecognised way (or not at all)"
+	})
 	stop := g.Method(cmd, "TestScript", "cmdStop")
 	shape("stopSetsStopped", "cmdStop sets `ts.stopped = true` as its last statement.", true, func() (bool, bool, string) {
 		if stop == nil || len(stop.Body.List) == 0 {
